@@ -95,6 +95,19 @@ func init() {
 		},
 	})
 	core.Register(&core.Property{
+		ID:         "C18",
+		Decided:    "Decides that Compact/Indent hand their transformer an empty output seed that does not overlap the destination's content, that the destination buffer is written only after the transformer reported success, that the Compact and Indent scanners classify and delegate all 256 byte values identically, that their recursion is bounded (C18.R3), and the lexical classes of their string scanner (C05.R1); it does not decide byte equality with encoding/json.",
+		NotCovered: "byte equality with encoding/json's Compact/Indent for every prefix/indent, idempotence, HTMLEscape's output (it is decode+marshal), Valid's verdict.",
+		Rules: []*core.Rule{
+			{ID: "C18.R1", Title: "the dst slice handed to compact/doIndent by functions that then write it to the caller's *bytes.Buffer is provably empty (x[:0] of library memory, x[len(x):], make(_,0,n), AvailableBuffer) and never buf.Bytes() or buf.Bytes()[:0]", Covers: "exactly the new text is appended to the destination buffer", Min: 2, Run: c18r1},
+			{ID: "C18.R2", Title: "every bytes.Buffer write in compact.go/indent.go is dominated by the `err != nil → return` test of the compact/doIndent call", Covers: "on an invalid text the destination buffer is left as it was", Min: 2, Run: c18r2},
+			{ID: "C18.R3", Title: "recursion rule C06.R2 evaluated from Compact/Indent/Valid/HTMLEscape (and Marshal, whose MarshalJSON validation uses compact)", Covers: "deeply nested input gives an error, not a fatal stack overflow", Min: 2, Run: c18r3},
+			{ID: "C18.R5", Title: "compactValue/indentValue, compactObject/indentObject, compactArray/indentArray send each of the 256 byte values to an error, to the same delegate, or to inline handling alike", Covers: "Compact and Indent accept the same texts and share string/number/literal handling", Min: 3, Run: c18r5},
+			{ID: "C05.R1", Title: "byte classes of every scanner state (shared with C05; includes compactString)", Covers: "raw control characters and invalid escapes are rejected by Compact/Indent/Valid", Min: 100, Run: c05r1},
+			{ID: "C05.R3", Title: "trailing-input check (shared with C05; includes encoder.validateEndBuf)", Covers: "anything after the value makes Compact/Indent fail", Min: 6, Run: c05r3},
+		},
+	})
+	core.Register(&core.Property{
 		ID:         "C17",
 		Decided:    "Decides that the encoder's escape table, 8-byte scan mask and slow-path switch agree with each other per variant, that the UTF-8 lead-byte table matches the definition, and that all decoder escape readers accept the same letters and test \\u digits; it does not decide the emitted or decoded string for any input.",
 		NotCovered: "position-dependent behaviour of the 8-byte scan, surrogate-pair arithmetic, equality with encoding/json's decoded string.",
